@@ -262,27 +262,67 @@ pub fn run(args: &Args, rep: &mut Report) {
     let threads = 8;
     let per = args.scale(60, 400);
     let mut hs = Vec::new();
+    // meanwhile a host thread starts and ends short-lived sessions in the same executor: the session table the
+    // request handler looks into is in use by others
+    let churn_stop = std::sync::Arc::new(std::sync::atomic::AtomicBool::new(false));
+    let churn = {
+        let ex2 = ex.clone();
+        let actions2 = actions.get_copy();
+        let stop = churn_stop.clone();
+        std::thread::spawn(move || {
+            let mut n = 0u64;
+            while !stop.load(std::sync::atomic::Ordering::Relaxed) && n < 5000 {
+                if let Ok(f) = parse_xml(r##"<scxml xmlns="http://www.w3.org/2005/07/scxml" version="1.0" datamodel="null" initial="f"><final id="f"/></scxml>"##) {
+                    let _s = rufsm::fsm::start_fsm(f, actions2.get_copy(), Box::new(ex2.clone()));
+                    n += 1;
+                }
+            }
+            n
+        })
+    };
     for t in 0..threads {
         let ids2 = ids.clone();
         hs.push(std::thread::spawn(move || {
             let mut ok = Vec::new();
+            let mut rejected = Vec::new();
+            let mut transport = 0u64;
             for i in 0..per {
                 let sid = ids2[(t + i) % ids2.len()];
                 let name = format!("cc.t{}.{}", t, i);
-                if let Ok(code) = post(&format!("/scxml/{}", sid), &format!("_scxmleventname={}&n={}", name, i)) {
-                    if (200..300).contains(&code) {
-                        ok.push((sid, name));
-                    }
+                match post(&format!("/scxml/{}", sid), &format!("_scxmleventname={}&n={}", name, i)) {
+                    Ok(code) if (200..300).contains(&code) => ok.push((sid, name)),
+                    Ok(code) => rejected.push((sid, name, code)),
+                    Err(_) => transport += 1,
                 }
             }
-            ok
+            (ok, rejected, transport)
         }));
     }
     let mut concurrent: Vec<(u32, String)> = Vec::new();
+    let mut rejected: Vec<(u32, String, u16)> = Vec::new();
+    let mut transport_errors = 0u64;
     for h in hs {
-        if let Ok(v) = h.join() {
+        if let Ok((v, r, t)) = h.join() {
             concurrent.extend(v);
+            rejected.extend(r.into_iter().map(|(a, b, c)| (a, b, c as u16)));
+            transport_errors += t;
         }
+    }
+    churn_stop.store(true, std::sync::atomic::Ordering::Relaxed);
+    let churned = churn.join().unwrap_or(0);
+    rep.count("sessions_started_and_ended_during_concurrent_posts", churned);
+    rep.count("concurrent_posts_transport_errors", transport_errors);
+    if transport_errors > 0 {
+        rep.inconclusive(&format!("{} concurrent posts failed below HTTP (connection refused / reset)", transport_errors));
+    }
+    if let Some((sid, name, code)) = rejected.first() {
+        // a valid POST (running session, event name present) is answered with an error status although nothing is
+        // wrong with it: it produced no event
+        rep.violation(
+            "valid-post-rejected-under-concurrency",
+            &format!("{} of {} valid concurrent POSTs were answered with an error status (e.g. event {} to session {}: {}) while other requests and session starts were in progress", rejected.len(), rejected.len() + concurrent.len(), name, sid, code),
+            json!({"rejected": rejected.len(), "accepted": concurrent.len(), "example": {"session": sid, "event": name, "status": code}, "client_threads": threads}),
+        );
     }
     for (sid, _) in &concurrent {
         *consumed.entry(*sid).or_insert(0) += 1;
